@@ -139,4 +139,15 @@ theorem code_pdf {x μ : ℝ} (l τ : ℝ) (hx : x ≠ μ) : esl_wei_pdf x μ l 
   · rw [if_pos h, if_pos (le_of_lt h)]
   · rw [if_neg (not_lt.mpr h.le), if_neg hx, if_neg (not_le.mpr h)]
 
+theorem code_logpdf {x μ l τ : ℝ} (hl : 0 < l) (hτ : 0 < τ) (hx : μ < x) :
+    esl_wei_logpdf x μ l τ = log (weiPdf μ l τ x) := by
+  have hxm : 0 < x - μ := by linarith
+  have hy : 0 < l * (x - μ) := mul_pos hl hxm
+  unfold esl_wei_logpdf weiPdf weiZ
+  simp only [num_exp, num_log, num_eqb, lit_one]
+  rw [if_neg (not_lt.mpr hx.le), if_neg (ne_of_gt hx), if_neg (not_le.mpr hx)]
+  rw [log_mul (by positivity) (exp_ne_zero _), log_mul (by positivity) (exp_ne_zero _), log_mul (ne_of_gt hl) (ne_of_gt hτ),
+    log_exp, log_exp, log_mul (ne_of_gt hl) (ne_of_gt hxm)]
+  ring
+
 end EaselModel.Dist.WeiThm
